@@ -60,6 +60,9 @@ def main() -> int:
     os.environ["PYTHONHASHSEED"] = os.environ.get("PYTHONHASHSEED", "0")
     if ROOT not in sys.path:
         sys.path.insert(0, ROOT)
+    if os.environ.get("VERIF_REPO"):
+        # mutation testing: import vgi_rpc from a scratch copy instead of /repo
+        sys.path.insert(0, os.environ["VERIF_REPO"])
     ensure_deps()
     if DEPS not in sys.path:
         sys.path.append(DEPS)
